@@ -146,6 +146,9 @@ void HttpServer::serveFile(HttpRequest& request, HttpResponse& response)
 	{
 		String path = request.path();
 
+		if (path[0] != '/') // a target that is not in origin form must not be glued to the last component of the root
+			path = String('/') + path;
+
 		if (path.endsWith("/"))
 			path += "index.html";
 
